@@ -171,7 +171,7 @@ def _conv(stmts, target):
 
 
 class Inliner:
-    def __init__(self, tree, relpath):
+    def __init__(self, tree, relpath, loader=None):
         self.tree = tree
         self.new = {}       # key -> Helper ; key = ('f', name) for module functions, ('m', name) for methods (unique over the module)
         self.done = []      # (caller qualname, helper qualname, how)
@@ -179,7 +179,7 @@ class Inliner:
         self.tmp = 0
         ref = ref_functions().get(relpath)
         if ref is None:
-            return
+            ref = None
         meth_count = {}
         cands = []
 
@@ -187,7 +187,7 @@ class Inliner:
             for ch in ast.iter_child_nodes(node):
                 if isinstance(ch, (ast.FunctionDef,)):
                     q = prefix + ch.name
-                    if q not in ref:
+                    if ref is not None and q not in ref:
                         cands.append((q, ch, cls))
                 elif isinstance(ch, ast.ClassDef):
                     scan(ch, prefix + ch.name + '.', ch.name)
@@ -204,6 +204,27 @@ class Inliner:
             else:
                 self.new[key] = h
         self.new = {k: v for k, v in self.new.items() if v is not None}
+        # new module-level helpers of other package modules that this module imports by name (`from pkg.mod import _helper`)
+        if loader is not None:
+            for st in ast.walk(tree):
+                if isinstance(st, ast.ImportFrom) and st.module and st.level == 0 and st.module.startswith('singlecellmultiomics'):
+                    cand = [st.module.replace('.', '/') + '.py', st.module.replace('.', '/') + '/__init__.py']
+                    for al in st.names:
+                        if al.name == '*' or al.name[:1].isupper() or ('f', al.asname or al.name) in self.new:
+                            continue
+                        for rp in cand:
+                            rf = ref_functions().get(rp)
+                            if rf is None or al.name in rf:
+                                continue
+                            other = loader(rp)
+                            if other is None:
+                                continue
+                            for ch in other.body:
+                                if isinstance(ch, ast.FunctionDef) and ch.name == al.name:
+                                    try:
+                                        self.new[('f', al.asname or al.name)] = Helper(f'{rp}:{al.name}', ch, None)
+                                    except NotInlinable as e:
+                                        self.skipped.append((al.name, str(e)))
 
     # ---- call recognition
     def helper_of(self, call):
@@ -417,6 +438,6 @@ class Inliner:
         return self
 
 
-def apply(tree, relpath):
-    inl = Inliner(tree, relpath).run()
+def apply(tree, relpath, loader=None):
+    inl = Inliner(tree, relpath, loader).run()
     return inl.done, inl.skipped
